@@ -1181,4 +1181,113 @@ theorem facts_sound (c : Cluster) (s : Strategy) (ns : String) (ref : Ref) (w : 
     rw [dispatch c s ns ref st hs] at h
     exact firstHit_facts c ns ref _ w (owners_owns _ _ _ _) h
 
+/-! ### totality -/
+
+theorem adm_parts (c : Cluster) (h : admissible c = true) :
+    c.cloneSets.all (·.replicas.isSome) = true ∧ c.deployments.all (·.replicas.isSome) = true ∧
+    c.replicaSets.all (·.replicas.isSome) = true ∧ c.nativeSts.all (·.replicas.isSome) = true ∧
+    c.kruiseSts.all (·.replicas.isSome) = true ∧
+    c.unstructured.all (fun u => u.updateRevision != .wrongType && u.currentRevision != .wrongType) = true := by
+  unfold admissible at h
+  simp only [Bool.and_eq_true] at h
+  obtain ⟨⟨⟨⟨⟨h1, h2⟩, h3⟩, h4⟩, h5⟩, h6⟩ := h
+  exact ⟨h1, h2, h3, h4, h5, h6⟩
+
+theorem afterGet_panic {α : Type} (g : GetR α) (parse : α → Option Info) (h : afterGet g parse = .panic) :
+    ∃ x, g = .found x ∧ parse x = none := (afterGet_out g parse _ h).2.2 rfl
+
+/-- the StatefulSet-like finder panics only on an existing typed ReplicaSet (the finding) or on an inadmissible object -/
+theorem stsLike_panic (c : Cluster) (ns : String) (ref : Ref) (h : getStatefulSetLikeWorkload c ns ref = .panic)
+    (hadm : admissible c = true) :
+    getEmptyWorkloadObject c.filter (fromAPIVersionAndKind ref.apiVersion ref.kind) = some .replicaSet ∧
+    (lookup ReplicaSet.m c.replicaSets ns ref.name).isSome = true := by
+  obtain ⟨h1, h2, h3, h4, h5, h6⟩ := adm_parts c hadm
+  unfold getStatefulSetLikeWorkload at h
+  split at h
+  · cases h
+  all_goals
+    rename_i he
+    obtain ⟨x, hx, hp⟩ := afterGet_panic _ _ h
+  · exact ⟨he, by simp [get_found _ _ _ _ _ _ _ hx]⟩
+  · simp [parseDaemonSet] at hp
+  · have := all_mem h2 (lookup_mem _ _ _ _ _ (get_found _ _ _ _ _ _ _ hx))
+    unfold parseDeployment at hp
+    cases hr : x.replicas <;> simp_all
+  · have := all_mem h1 (lookup_mem _ _ _ _ _ (get_found _ _ _ _ _ _ _ hx))
+    unfold parseCloneSet at hp
+    cases hr : x.replicas <;> simp_all
+  · have := all_mem h4 (lookup_mem _ _ _ _ _ (get_found _ _ _ _ _ _ _ hx))
+    unfold stsInfo at hp
+    cases hr : x.replicas <;> simp_all
+  · have := all_mem h5 (lookup_mem _ _ _ _ _ (get_found _ _ _ _ _ _ _ hx))
+    unfold stsInfo at hp
+    cases hr : x.replicas <;> simp_all
+  · have hm := List.mem_of_find?_eq_some (getUnstr_found _ _ _ _ _ hx)
+    have := all_mem h6 hm
+    unfold parseUnstr at hp
+    cases hu : x.updateRevision <;> cases hc : x.currentRevision <;> simp_all [UF.str?]
+
+theorem firstHit_mem (l : List Out) (o : Out) (h : firstHit l = o) (hne : o ≠ .nothing) : o ∈ l := by
+  induction l with
+  | nil => simp [firstHit] at h; exact absurd h.symm hne
+  | cons x xs ih =>
+    cases x with
+    | nothing => simp only [firstHit] at h; exact List.mem_cons_of_mem _ (ih h)
+    | err => simp only [firstHit] at h; subst h; simp
+    | wl w => simp only [firstHit] at h; subst h; simp
+    | wlErr w => simp only [firstHit] at h; subst h; simp
+    | panic => simp only [firstHit] at h; subst h; simp
+
+theorem run_no_panic (c : Cluster) (s : Strategy) (ns : String) (ref : Ref) (f : FinderId)
+    (hadm : admissible c = true) (hbg : f = .stsLike → s.blueGreen = false) (hg : replicaSetRef c s ns ref = false) :
+    runFinder c ns ref f ≠ .panic := by
+  obtain ⟨h1, h2, h3, h4, h5, h6⟩ := adm_parts c hadm
+  intro h
+  cases f with
+  | cloneSet => exact cloneSet_no_panic c ns ref h1 h
+  | daemonSet => exact (daemonSet_not_wlErr_panic c ns ref).2 h
+  | deployment =>
+    obtain ⟨d, hl, hr⟩ := (deployment_out c ns ref _ h).2.2 rfl
+    have := all_mem h2 (lookup_mem _ _ _ _ _ hl)
+    simp [hr] at this
+  | advancedDeployment =>
+    obtain ⟨d, hl, hr | ⟨rs, hrs, hr⟩⟩ := (advanced_out c ns ref _ h).2.2 rfl
+    · have := all_mem h2 (lookup_mem _ _ _ _ _ hl)
+      simp [hr] at this
+    · have := all_mem h3 hrs
+      simp [hr] at this
+  | stsLike =>
+    obtain ⟨he, hl⟩ := stsLike_panic c ns ref h hadm
+    simp [replicaSetRef, hbg rfl, he, hl] at hg
+
+theorem style_blueGreen (s : Strategy) (st : Style) (hs : getRollingStyle s = some st) (hf : FinderId.stsLike ∈ finders st) :
+    s.blueGreen = false := by
+  unfold getRollingStyle at hs
+  cases hb : s.blueGreen with
+  | false => rfl
+  | true =>
+    simp only [hb, if_true, Option.some.injEq] at hs
+    subst hs
+    simp [finders] at hf
+
+/-! ### the other outcomes, for the oracles -/
+
+theorem run_wlErr (c : Cluster) (ns : String) (ref : Ref) (f : FinderId) (w : W) (h : runFinder c ns ref f = .wlErr w) :
+    w.isInRollback = false ∧ (w.isStatusConsistent = true ∨ w = W.opaque) := by
+  cases f with
+  | cloneSet => exact absurd h (cloneSet_not_wlErr c ns ref w)
+  | daemonSet => exact absurd h ((daemonSet_not_wlErr_panic c ns ref).1 w)
+  | deployment => exact (deployment_out c ns ref _ h).2.1 w rfl
+  | advancedDeployment =>
+    have := (advanced_out c ns ref _ h).2.1 w rfl
+    subst this
+    simp [W.opaque]
+  | stsLike => exact absurd rfl ((stsLike_out c ns ref _ h).2.1 w)
+
+theorem agrees_opaque (w : W) (F : Facts) (h : agrees w F = true) : w.isStatusConsistent = true ∨ w = W.opaque := by
+  unfold agrees at h
+  cases hw : F.waits
+  · simp [hw] at h; exact Or.inl h.1
+  · simp [hw] at h; exact Or.inr h.2
+
 end RV.Lemmas.Finder
